@@ -5,6 +5,8 @@ from vlib import xhex, rnd_u64, U64
 from props.codec_common import CODEC_TRUSTED
 
 THEOREMS = ["C06_admin_record_total", "C06_decode_total", "C06_receive_path_total", "C06_depth_bounded", "C06_length_claims_checked", "C06_decoded_shape"]
+REPEAT = 2            # case lines repeated 66 000 times on one thread (state that builds up over many calls)
+REPEAT_CMDS = ('DEC',)
 RELEASE = True
 OFFSET = 946684800000
 RULE = ("DEC on every byte string of length <= 2 (exhaustive) and a seeded sample of length 3 (thorough: all 16.8M of length <= 3); OPS "
